@@ -37,6 +37,9 @@ TYPES = {
     "DATETIME": lambda: sa.DateTime(),
     "BOOLEAN0": lambda: sa.Boolean(create_constraint=False),
     "TEXT": lambda: sa.Text(),
+    # types that carry a CHECK constraint (toimpl.alter_column drops / adds it, toimpl.add_column adds it)
+    "BOOLEAN_C": lambda: sa.Boolean(create_constraint=True, name="ck_bool"),
+    "ENUM_C": lambda: sa.Enum("a", "b", name="en_ty", create_constraint=True, native_enum=False),
 }
 DEFAULTS = {
     "zero": lambda: sa.text("0"),
@@ -150,8 +153,16 @@ def apply_op(c: Ctx, d):
                 kw = dict(d.get("kw") or {})
                 if "server_default" in kw:
                     kw["server_default"] = DEFAULTS[kw["server_default"]]()
-                op.add_column(mk_name(d["t"]), sa.Column(mk_name(d["col"]), TYPES[d.get("type", "INTEGER")](), **kw),
-                              schema=mk_name(d.get("schema")))
+                args = []
+                if kw.pop("check", False):   # column-level constraint: rendered inline by base.add_column
+                    args.append(sa.CheckConstraint("1 > 0"))
+                fk = kw.pop("fk", None)      # column-level foreign key: toimpl.add_column emits ADD CONSTRAINT
+                if fk:
+                    args.append(sa.ForeignKey(fk))
+                col = sa.Column(mk_name(d["col"]), TYPES[d.get("type", "INTEGER")](), *args, **kw)
+                if d.get("attached"):        # a column that already belongs to a table is copied
+                    sa.Table("other_tbl", sa.MetaData(), col)
+                op.add_column(mk_name(d["t"]), col, schema=mk_name(d.get("schema")))
             elif kind == "drop_column":
                 op.drop_column(mk_name(d["t"]), mk_name(d["col"]), schema=mk_name(d.get("schema")), **(d.get("kw") or {}))
             elif kind == "alter_column":
@@ -162,12 +173,16 @@ def apply_op(c: Ctx, d):
                 for dk in ("server_default", "existing_server_default"):
                     if dk in kw and kw[dk] is not None:
                         v = kw[dk]
-                        kw[dk] = sa.Identity() if v == "identity" else DEFAULTS[v]()
+                        kw[dk] = (sa.Identity() if v == "identity" else
+                                  sa.Identity(always=True, start=5, increment=2) if v == "identity2" else
+                                  sa.Computed("1 + 1") if v == "computed" else DEFAULTS[v]())
                 if "new_column_name" in kw:
                     kw["new_column_name"] = mk_name(kw["new_column_name"])
                 op.alter_column(mk_name(d["t"]), mk_name(d["col"]), schema=mk_name(d.get("schema")), **kw)
             elif kind == "drop_constraint":
                 op.drop_constraint(mk_name(d["cname"]), mk_name(d["t"]), type_=d["type_"], schema=mk_name(d.get("schema")))
+            elif kind == "generic":
+                apply_generic(op, d)
             elif kind == "compile":
                 c.impl._exec(build_construct(c, d["construct"]))
             else:
@@ -181,6 +196,55 @@ def apply_op(c: Ctx, d):
         else:
             out.append((construct, text[: len(text) - len(c.suffix)], text))
     return out, err
+
+
+def apply_generic(op, d):
+    """operations whose statements are compiled by SQLAlchemy's own constructs (judged by Spec.Ident.mentionsRef)"""
+    g, t, schema = d["g"], mk_name(d["t"]), mk_name(d.get("schema"))
+    col, name = mk_name(d.get("col")), mk_name(d.get("name"))
+    if g == "create_table":
+        op.create_table(t, sa.Column(col, sa.Integer(), primary_key=True), sa.Column("other_c", sa.String(10), index=d.get("index", False)),
+                        schema=schema, **({"comment": "tbl c'm"} if d.get("comment") else {}),
+                        **({"if_not_exists": True} if d.get("if") else {}))
+    elif g == "drop_table":
+        op.drop_table(t, schema=schema, **({"if_exists": True} if d.get("if") else {}))
+    elif g == "create_index":
+        op.create_index(name, t, [col], schema=schema, unique=bool(d.get("unique")), **(d.get("kw") or {}),
+                        **({"if_not_exists": True} if d.get("if") else {}))
+    elif g == "drop_index":
+        op.drop_index(name, t, schema=schema, **({"if_exists": True} if d.get("if") else {}))
+    elif g == "create_unique_constraint":
+        op.create_unique_constraint(name, t, [col], schema=schema)
+    elif g == "create_check_constraint":
+        op.create_check_constraint(name, t, sa.column(col) > 5, schema=schema)
+    elif g == "create_primary_key":
+        op.create_primary_key(name, t, [col], schema=schema)
+    elif g == "create_foreign_key":
+        op.create_foreign_key(name, t, "ref_tbl", [col], ["id"], source_schema=schema, referent_schema=schema)
+    elif g == "create_table_comment":
+        op.create_table_comment(t, "a c'mment", schema=schema)
+    elif g == "drop_table_comment":
+        op.drop_table_comment(t, schema=schema)
+    elif g == "bulk_insert":
+        tbl = sa.Table(t, sa.MetaData(), sa.Column(col, sa.Integer()), schema=schema)
+        op.bulk_insert(tbl, [{str(col): 1}, {str(col): 2}])
+    elif g == "create_exclude_constraint":
+        op.create_exclude_constraint(name, t, (col, "="), where=d.get("where"), schema=schema, using="gist")
+    else:
+        raise ValueError("unknown generic op " + g)
+
+
+def _identity_alter_tail(c, el):
+    """the option part of PostgreSQL's ALTER ... SET ... identity form (no identifiers in it)"""
+    comp = c.ddl_compiler()
+    diff, _, _ = el.impl._compare_identity_default(el.default, el.existing_server_default)
+    text = ""
+    for attr in sorted(diff):
+        if attr == "always":
+            text += "SET GENERATED %s " % ("ALWAYS" if el.default.always else "BY DEFAULT")
+        else:
+            text += "SET %s " % comp.get_identity_options(sa.Identity(**{attr: getattr(el.default, attr)}))
+    return text
 
 
 def _sd_text(c, default):
@@ -204,9 +268,11 @@ def describe(c: Ctx, el):
     if T is ddl_base.AddColumn:
         comp = c.ddl_compiler()
         full = comp.get_column_specification(el.column)
-        const = " ".join(comp.process(x) for x in el.column.constraints)
-        if const:
-            full += " " + const
+        if c.dialect_name not in ("mssql", "oracle"):
+            # only base.add_column appends the column-level constraints; mssql_add_column / oracle.add_column do not
+            const = " ".join(comp.process(x) for x in el.column.constraints)
+            if const:
+                full += " " + const
         pre = c.prep.format_column(el.column) + " "
         if not full.startswith(pre):
             return {"c": "?", "why": "column specification does not start with the formatted column name", "full": full}
@@ -241,7 +307,7 @@ def describe(c: Ctx, el):
         elif el.existing_server_default is None:
             tail = "ADD " + comp.visit_identity_column(el.default)
         else:
-            return {"c": "?", "why": "identity alter form not modelled"}
+            tail = _identity_alter_tail(c, el)
         return {"c": "identity", **g(), "col": name_json(el.column_name), "tail": tail}
     if T is ddl_mysql.MySQLAlterDefault:
         return {"c": "mysqlAlterDefault", **g(), "col": name_json(el.column_name),
